@@ -140,6 +140,8 @@ def build_akai(model):
             struct.pack_into("<HH", buf, o + 12, vol.get("type_raw", vol.get("type", 3)), vol["dir"]["chain"][0])
             layout[who + ".entry"] = (P + o, 16)
             dchain = vol["dir"]["chain"]
+            if vol.get("alias"):
+                continue        # a second volume entry naming the directory of an earlier volume: nothing more to write
             if vol["dir"]["mode"] == "reserved":
                 assert all(b == a + 1 for a, b in zip(dchain, dchain[1:])), "reserved run must be consecutive"
                 flag = vol["dir"].get("flag", RES)
@@ -201,7 +203,7 @@ def mk_sample(name, sid_seq, nwords, start=0, end=None, rate=44100, sid=3, ftype
     return f
 
 
-def expected_exports(model, partition_letters="ABCDEFGHIJKLMNOPQRSTUVWXYZ"):
+def expected_exports(model, partition_letters="ABCDEFGHIJKLMNOPQRSTUVWXYZ" + "?" * 80):
     """Expected export tree for images with plain, collision-free names and no L/R pairs:
     {relative path: (channels, rate, pcm bytes)}"""
     exp = {}
@@ -261,6 +263,8 @@ def model_from_spec(spec):
                    "terminator": v.get("terminator", True)}
             if "slot" in v:
                 vol["slot"] = v["slot"]
+            if v.get("alias"):
+                vol["alias"] = True
             if "type_raw" in v:
                 vol["type_raw"] = v["type_raw"]
             vols.append(vol)
@@ -276,7 +280,7 @@ def interleave2(a: bytes, b: bytes) -> bytes:
     return bytes(out)
 
 
-def expected_exports_pairs(model, partition_letters="ABCDEFGHIJKLMNOPQRSTUVWXYZ"):
+def expected_exports_pairs(model, partition_letters="ABCDEFGHIJKLMNOPQRSTUVWXYZ" + "?" * 80):
     """Like expected_exports, with explicitly declared equal-length L/R pairs merged into stereo files."""
     exp = {}
     for pi, part in enumerate(model["partitions"]):
